@@ -2,6 +2,7 @@
 #include "harness.h"
 #include <cstring>
 #include <algorithm>
+#include <set>
 
 static size_t CHB() { return build_chunk_bytes(); }
 static bool is_prod() { return CHB() >= (1u << 20); }
@@ -666,6 +667,19 @@ static void gen_C18(const std::string &tier, uint64_t seed, long idx, Scn &s) {
   s.prop = "C18"; s.tier = tier; s.seed = seed; s.index = idx;
   Rng g(Rng::mix(seed, 0xC18, (uint64_t)idx));
   fill_base(g, s, 4);
+  if (!is_prod() && idx % 16 == 3) {
+    // one long CTR/OFB stream per worker (> 256 blocks): no keystream block may be used twice inside a stream either
+    s.i["longstream"] = 1;
+    int T = 1 + (int)g.below(2);
+    s.i["T"] = T;
+    s.i["cm"] = g.chance(0.7) ? 2 : 4;
+    s.i["len"] = (long)T * 16 * (258 + (long)g.below(40)) + (long)g.below(16);
+    s.i["ptype"] = g.chance(0.5) ? 3 : 0;
+    s.i["sio"] = 0;
+    pick_sched(g, s, 0, T, false);
+    s.i["st0"] = simsched::ST_STICKY; s.i["sp0"] = 990;
+    return;
+  }
   if (!is_prod() && idx % 8 == 5) {   // the command-line path: seed = 256 rand() bytes drawn from the (simulated) clock
     s.i["cli"] = 1;
     s.i["cm"] = 1 + (long)g.below(4);
@@ -698,8 +712,48 @@ static void gen_C18(const std::string &tier, uint64_t seed, long idx, Scn &s) {
   if (is_prod()) { s.i["st0"] = simsched::ST_STICKY; s.i["sp0"] = 9999; }
 }
 
+static Verdict run_C18_longstream(const Scn &s) {
+  int T = (int)s.geti("T");
+  long len = s.geti("len");
+  size_t CH = CHB();
+  Bytes P = make_plain(len, (uint64_t)s.geti("pseed"), (int)s.geti("ptype"), CH);
+  SimFile fin, fenc;
+  fin.data = P;
+  OpSpec e = base_op(s, OP_ENC, 0, &fin, &fenc, len);
+  OpResult re = run_slot(s, e, 0, "enc", HANG_SKIP);
+  if (!re.ret) return skip("enc-false");
+  const Bytes &F = fenc.data;
+  size_t hs = 48 + 20 * (size_t)T;
+  Bytes PP = ref_pkcs7(P);
+  if (F.size() != hs + PP.size()) return skip("unexpected-length");
+  Verdict v;
+  v.case_hash = cfg_hash(s);
+  v.nontrivial = true;
+  v.trace_hash = fnv1a(re.sr.trace_hash, F.data(), F.size());
+  g_stats.add("probe.long_stream_runs", 1);
+  size_t nchunks = (PP.size() + CH - 1) / CH;
+  for (int st = 0; st < T; st++) {
+    std::set<std::string> seen;
+    size_t blocks = 0;
+    for (size_t j = (size_t)st; j < nchunks; j += (size_t)T)
+      for (size_t o = j * CH; o + 16 <= std::min(PP.size(), (j + 1) * CH); o += 16) {
+        std::string ks(16, 0);
+        for (int q = 0; q < 16; q++) ks[q] = (char)(F[hs + o + q] ^ PP[o + q]);
+        blocks++;
+        if (!seen.insert(ks).second) {
+          Verdict x = viol("keystream-block-reused-within-stream", "stream " + std::to_string(st) + " (" + (s.geti("cm") == 2 ? "CTR" : "OFB") + "): the keystream block of stream block " + std::to_string(blocks - 1) + " was already used earlier in the same stream");
+          x.case_hash = v.case_hash; x.nontrivial = true; x.trace_hash = v.trace_hash;
+          return x;
+        }
+      }
+    g_stats.max("probe.max_blocks_in_one_stream", (long)blocks);
+  }
+  return v;
+}
+
 static Verdict run_C18(const Scn &s) {
   if (s.geti("cli")) return run_C18_cli(s);
+  if (s.geti("longstream")) return run_C18_longstream(s);
   int T = (int)s.geti("T");
   long len = s.geti("len");
   int cm = (int)s.geti("cm");
